@@ -103,10 +103,10 @@ func (e *Eng) lemmaEnc(want func([]string) bool) *FnEnc {
 		}
 	}
 	f.out.WriteString(e.theoryText(all))
-	f.obls = append(f.obls, &Obligation{Func: "lemma", Kind: "cover", Label: "prelude", Name: "prelude/cover/consistent", Pos: f.out.Len(), At: "true", Goal: "true", Cover: true, Src: "prelude", LongCover: true})
+	f.obls = append(f.obls, &Obligation{Func: "lemma", Kind: "cover", Label: "prelude", Name: "prelude/cover/consistent", Pos: f.out.Len(), Block: -1, At: "true", Goal: "true", Cover: true, Src: "prelude", LongCover: true})
 	for _, l := range e.cs.Lemmas {
 		if want(l.Tags) {
-			f.obls = append(f.obls, &Obligation{Func: "lemma", Kind: "lemma", Label: l.Label, Name: "lemma/" + l.Label, Tags: l.Tags, Pos: f.out.Len(), At: "true", Goal: l.Expr.String(), Src: l.Src})
+			f.obls = append(f.obls, &Obligation{Func: "lemma", Kind: "lemma", Label: l.Label, Name: "lemma/" + l.Label, Tags: l.Tags, Pos: f.out.Len(), Block: -1, At: "true", Goal: l.Expr.String(), Src: l.Src})
 		}
 		fmt.Fprintf(&f.out, "(assert %s)\n", l.Expr.String())
 	}
@@ -115,8 +115,8 @@ func (e *Eng) lemmaEnc(want func([]string) bool) *FnEnc {
 		if want(in.Tags) {
 			base := fmt.Sprintf("(let ((%s 0)) %s)", in.Var, body)
 			step := fmt.Sprintf("(forall ((%s Int)) (=> (and (>= %s 0) %s) (let ((%s (+ %s 1))) %s)))", in.Var, in.Var, body, in.Var, in.Var, body)
-			f.obls = append(f.obls, &Obligation{Func: "lemma", Kind: "lemma", Label: in.Label + ".base", Name: "lemma/" + in.Label + ".base", Tags: in.Tags, Pos: f.out.Len(), At: "true", Goal: base, Src: in.Src})
-			f.obls = append(f.obls, &Obligation{Func: "lemma", Kind: "lemma", Label: in.Label + ".step", Name: "lemma/" + in.Label + ".step", Tags: in.Tags, Pos: f.out.Len(), At: "true", Goal: step, Src: in.Src})
+			f.obls = append(f.obls, &Obligation{Func: "lemma", Kind: "lemma", Label: in.Label + ".base", Name: "lemma/" + in.Label + ".base", Tags: in.Tags, Pos: f.out.Len(), Block: -1, At: "true", Goal: base, Src: in.Src})
+			f.obls = append(f.obls, &Obligation{Func: "lemma", Kind: "lemma", Label: in.Label + ".step", Name: "lemma/" + in.Label + ".step", Tags: in.Tags, Pos: f.out.Len(), Block: -1, At: "true", Goal: step, Src: in.Src})
 		}
 		fmt.Fprintf(&f.out, "(assert (forall ((%s Int)) (=> (>= %s 0) %s)))\n", in.Var, in.Var, body)
 	}
